@@ -24,7 +24,7 @@ From CG Require Import Base.Prelude Model.Ast Model.Lexer Model.Parser Model.Che
 From CG Require Import Model.Dfa Model.Ambiguity Model.Driver Spec.Printer Spec.Choice Spec.Mistakes.
 From CG Require Import Proofs.CheckMistakes Proofs.CheckFront Proofs.CheckCycleSpec Proofs.CheckSpacesSpec.
 From CG Require Import Proofs.PipelineLayout Proofs.PipelineTotal Proofs.PipelineMistakes.
-From CG Require Proofs.PipelinePlaceholder.
+From CG Require Proofs.PipelinePlaceholder Proofs.AmbLang.
 From CGgen Require Import Consts.
 
 (** the bridge: the text of a printable grammar goes through the pipeline like the grammar itself,
@@ -265,6 +265,37 @@ Definition C08b_clean_compiles_statement : Prop :=
     present builtins g sh = [] -> specs_have_command_plain g = true ->
     exists vc, compile pick fuel builtins (text g l) sh = Ok vc.
 
+(** What stands between [C08b_clean_compiles] and the full converse, stated:
+    - finding N1 as a predicate on the grammar: some word is a juxtaposition with two neighbours
+      that end / start with a literal AS WRITTEN (references are not followed at the root of a
+      word): `foo(bar)`; check_subword_spaces rejects it although nothing is space-separated;
+    - the description-conflict class at the level of the language ([AmbLang.lang_conflict], what
+      the ambiguity check decides: [C08_description_conflict]) for the main regex and the regexes
+      of the words; a predicate on the source grammar for it is still missing. *)
+Definition juxtaposed_literals_in (e : expr) : bool :=
+  existsb (fun w => match w with Sequence cs _ => adjacent_literals cs | _ => false end) (words_of e).
+Definition juxtaposed_literals (g : grammar) : bool :=
+  existsb (fun st => match st with
+                     | CallVariant _ _ e => juxtaposed_literals_in e
+                     | NontermDef _ _ _ rhs => juxtaposed_literals_in rhs
+                     end) g.
+Definition no_description_conflict (pick : nat -> list (list N) -> nat) (fuel : nat)
+           (builtins : shell -> list (string * string)) (g : grammar) (sh : shell) : Prop :=
+  forall v r pl x submap d states,
+    from_grammar builtins g sh = Ok v -> from_expr (v_expr v) [] = Ok (r, pl) ->
+    x = r \/ In x pl ->
+    Subset.dfa_from_regex pick fuel submap x = Ok (d, states) -> ~ AmbLang.lang_conflict d.
+
+(** The converse with the two gaps as explicit hypotheses (NOT proved: it needs the converse of
+    [C08_subword_spaces] -- the walk of check_subword_spaces errs only on [subword_spaces] or
+    [juxtaposed_literals] -- and [C08_description_conflict] for the automata of the words). *)
+Definition C08b_clean_compiles_modulo_gaps_statement : Prop :=
+  forall pick fuel builtins g l sh,
+    wf g -> fuel_covers fuel builtins (text g l) sh ->
+    present builtins g sh = [] -> specs_have_command_plain g = true ->
+    juxtaposed_literals g = false -> no_description_conflict pick fuel builtins g sh ->
+    exists vc, compile pick fuel builtins (text g l) sh = Ok vc.
+
 (** Non-vacuity: a printable grammar with a cycle hidden behind a description, printed with two
     different layouts, is rejected with the cycle error; a printable clean one compiles. *)
 Definition ex_sp := mkspan 0 0 0.
@@ -320,3 +351,18 @@ Proof.
   vm_compute. repeat split; try reflexivity; try (do 2 eexists; reflexivity).
 Qed.
 Print Assumptions ex_C08b_placeholder_inhabited.
+
+(** Non-vacuity of the N1 predicate: `cmd foo(bar);` has no class of Spec/Mistakes.v, has the N1
+    shape and is rejected with SubwordSpaces; `cmd --opt=<X>; <X> ::= foo;` has not and is accepted. *)
+Definition ex_n1 : grammar :=
+  [ CallVariant "cmd" ex_sp (Subword (Sequence [Terminal "foo" None 0 ex_sp; Terminal "bar" None 0 ex_sp] ex_sp) 0 ex_sp) ].
+Definition ex_not_n1 : grammar :=
+  [ CallVariant "cmd" ex_sp (Subword (Sequence [Terminal "--opt=" None 0 ex_sp; NontermRef "X" 0 ex_sp] ex_sp) 0 ex_sp);
+    NontermDef "X" ex_sp None (Terminal "foo" None 0 ex_sp) ].
+Example ex_C08b_n1_inhabited :
+  present builtins ex_n1 Bash = [] /\ juxtaposed_literals ex_n1 = true
+  /\ (exists a b t, from_grammar builtins ex_n1 Bash = Err (SubwordSpaces a b t))
+  /\ present builtins ex_not_n1 Bash = [] /\ juxtaposed_literals ex_not_n1 = false
+  /\ is_ok (from_grammar builtins ex_not_n1 Bash) = true.
+Proof. vm_compute. repeat split; try reflexivity. do 3 eexists. reflexivity. Qed.
+Print Assumptions ex_C08b_n1_inhabited.
